@@ -400,11 +400,8 @@ func RuleE3i(c *Ctx) {
 		info := pk.TypesInfo
 		cf := c.CFG(pk, fd.Body)
 		ast.Inspect(fd.Body, func(x ast.Node) bool {
-			ifs, ok := x.(*ast.IfStmt)
-			if !ok || ifs.Init == nil {
-				return true
-			}
-			as, ok := ifs.Init.(*ast.AssignStmt)
+			// the lookup  v, ok := M[k]  (as the init of an if, or as a statement of its own)
+			as, ok := x.(*ast.AssignStmt)
 			if !ok || len(as.Lhs) != 2 || len(as.Rhs) != 1 {
 				return true
 			}
@@ -412,26 +409,29 @@ func RuleE3i(c *Ctx) {
 			if !ok {
 				return true
 			}
-			if _, isMap := info.TypeOf(ix.X).Underlying().(*types.Map); !isMap {
+			if t := info.TypeOf(ix.X); t == nil {
+				return true
+			} else if _, isMap := t.Underlying().(*types.Map); !isMap {
 				return true
 			}
 			vid, ok := as.Lhs[0].(*ast.Ident)
-			if !ok || vid.Name == "_" || len(ifs.Body.List) != 1 {
+			okid, ok2 := as.Lhs[1].(*ast.Ident)
+			if !ok || !ok2 || vid.Name == "_" || okid.Name == "_" {
 				return true
 			}
-			ret, ok := ifs.Body.List[0].(*ast.ReturnStmt)
-			if !ok || len(ret.Results) < 1 {
-				return true
-			}
-			if rid, ok := ret.Results[0].(*ast.Ident); !ok || info.ObjectOf(rid) != info.ObjectOf(vid) {
-				return true
-			}
-			// the store  M[k] = value
+			okObj := info.ObjectOf(okid)
+			// the store  M[k] = value  reached only where the lookup missed
 			var store *ast.AssignStmt
 			ast.Inspect(fd.Body, func(y ast.Node) bool {
-				if s2, ok := y.(*ast.AssignStmt); ok && len(s2.Lhs) == 1 && s2.Pos() > ifs.End() {
+				if s2, ok := y.(*ast.AssignStmt); ok && len(s2.Lhs) == 1 && s2.Pos() > as.End() {
 					if ix2, ok := ast.Unparen(s2.Lhs[0]).(*ast.IndexExpr); ok && cfgx.SameExpr(info, ix2.X, ix.X) && cfgx.SameExpr(info, ix2.Index, ix.Index) {
-						store = s2
+						missed := func(fa cfgx.Fact) bool {
+							id, isId := ast.Unparen(fa.Expr).(*ast.Ident)
+							return isId && info.ObjectOf(id) == okObj && !fa.Truth
+						}
+						if cf.MustAt(s2, missed, nil, nil) {
+							store = s2
+						}
 					}
 				}
 				return true
@@ -439,11 +439,45 @@ func RuleE3i(c *Ctx) {
 			if store == nil {
 				return true
 			}
+			// the looked-up value is what a hit hands out: it is returned somewhere
+			returned := false
+			ast.Inspect(fd.Body, func(y ast.Node) bool {
+				if ret, ok := y.(*ast.ReturnStmt); ok {
+					for _, r := range ret.Results {
+						if rid, ok := ast.Unparen(r).(*ast.Ident); ok && info.ObjectOf(rid) == info.ObjectOf(vid) {
+							returned = true
+						}
+					}
+				}
+				return true
+			})
+			if !returned {
+				return true
+			}
+			// the value that is stored: the right-hand side, or - when that is a variable written
+			// more than once - what the nearest preceding assignment in the same block gave it
+			valueExpr := cf.Resolve(store.Rhs[0])
+			if rid, ok := ast.Unparen(valueExpr).(*ast.Ident); ok {
+				if blk := enclosingBlock(fd.Body, store); blk != nil {
+					for _, st := range blk.List {
+						if st.Pos() >= store.Pos() {
+							break
+						}
+						if a2, ok := st.(*ast.AssignStmt); ok && len(a2.Lhs) == len(a2.Rhs) {
+							for k, l := range a2.Lhs {
+								if lid, ok := l.(*ast.Ident); ok && info.ObjectOf(lid) == info.ObjectOf(rid) {
+									valueExpr = a2.Rhs[k]
+								}
+							}
+						}
+					}
+				}
+			}
 			n++
 			perFn[c.P.DeclName(fd)]++
 			key := fmt.Sprintf("%s:memo(%s)#%d", c.P.DeclName(fd), types.ExprString(ix.X), perFn[c.P.DeclName(fd)])
 			fp := &footprint{c: c, seenFn: map[*types.Func]bool{}}
-			valueLeaves := fp.ofExpr(pk, cf, cf.Resolve(store.Rhs[0]), 0)
+			valueLeaves := fp.ofExpr(pk, cf, cf.Resolve(valueExpr), 0)
 			fp2 := &footprint{c: c, seenFn: map[*types.Func]bool{}, keyMode: true}
 			keyLeaves := fp2.ofExpr(pk, cf, cf.Resolve(ix.Index), 0)
 			var missing []string
@@ -454,9 +488,9 @@ func RuleE3i(c *Ctx) {
 			}
 			sort.Strings(missing)
 			if len(missing) == 0 {
-				sc.Holds(key, c.P.Pos(ifs.Pos()), fmt.Sprintf("value reads %s; all covered by the key", leafList(valueLeaves)))
+				sc.Holds(key, c.P.Pos(as.Pos()), fmt.Sprintf("value reads %s; all covered by the key", leafList(valueLeaves)))
 			} else {
-				sc.Violation(key, c.P.Pos(ifs.Pos()), fmt.Sprintf("the cached value is computed from %s but the key %s is derived only from %s: a hit can return a value built from different %s", leafList(valueLeaves), types.ExprString(ix.Index), leafList(keyLeaves), strings.Join(missing, ", ")))
+				sc.Violation(key, c.P.Pos(as.Pos()), fmt.Sprintf("the cached value is computed from %s but the key %s is derived only from %s: a hit can return a value built from different %s", leafList(valueLeaves), types.ExprString(ix.Index), leafList(keyLeaves), strings.Join(missing, ", ")))
 			}
 			return true
 		})
@@ -723,6 +757,22 @@ func (fp *footprint) derived(field *types.Var, depth int) map[*types.Var]bool {
 			walk(stored, 0)
 			return true
 		})
+	})
+	return out
+}
+
+// enclosingBlock returns the innermost block statement of body that directly contains st.
+func enclosingBlock(body *ast.BlockStmt, st ast.Stmt) *ast.BlockStmt {
+	var out *ast.BlockStmt
+	ast.Inspect(body, func(n ast.Node) bool {
+		if b, ok := n.(*ast.BlockStmt); ok {
+			for _, x := range b.List {
+				if x == st {
+					out = b
+				}
+			}
+		}
+		return true
 	})
 	return out
 }
